@@ -49,10 +49,54 @@ def check_bic(rec: Rec, text: str, strict: bool, origin: str):
         return want
     if v is not want or (iv is not None and iv is not want):
         rec.fail("observation_points_disagree", "bic_points", inp, want, {"validate": v, "is_valid": iv})
+    if strict and obic.accept_norm(s, False):
+        # further routes to the strict question: an object that was validated in the lenient mode (by the constructor, by
+        # validate(), by is_valid) is asked again in the strict mode, or handed to a constructor that asks for it; afterwards
+        # the lenient questions on the same object still get the lenient answer
+        routes = {}
+
+        def after_validate():
+            o2 = BIC(text, allow_invalid=True)
+            o2.validate()
+            return o2.validate(enforce_swift_compliance=True)
+
+        def after_is_valid():
+            o2 = BIC(text, allow_invalid=True)
+            o2.is_valid  # noqa: B018
+            return o2.validate(enforce_swift_compliance=True)
+        for name, fn in (("revalidate", lambda: BIC(text).validate(enforce_swift_compliance=True)),
+                         ("rewrap", lambda: BIC(BIC(text), enforce_swift_compliance=True)),
+                         ("after_validate", after_validate), ("after_is_valid", after_is_valid)):
+            try:
+                fn()
+                routes[name] = True
+            except SchwiftyException:
+                routes[name] = False
+            except Exception as e:  # noqa: BLE001
+                rec.fail(f"crash|{name}|{type(e).__name__}|{frame_of(e)}", "bic_total", inp, "verdict", f"{type(e).__name__}: {e}")
+                return want
+        bad = sorted(k for k, x in routes.items() if x is not want)
+        if bad:
+            rec.fail(f"route_differs|{bad[0]}", "bic_points", inp, want, routes)
+        try:
+            o2 = BIC(text, allow_invalid=True)
+            try:
+                o2.validate(enforce_swift_compliance=True)
+            except SchwiftyException:
+                pass
+            after = [o2.is_valid, o2.validate() is True]
+        except Exception as e:  # noqa: BLE001
+            after = f"{type(e).__name__}: {e}"
+        if after != [True, True]:
+            rec.fail("lenient_answer_changed_after_strict_validation", "bic_points", inp, [True, True], after)
+        rec.classes["strict-routes" + ("" if want else "-strict-rejects")] += 1
     return want
 
 
 def replay(rec, case):
+    if case["input"].get("origin") == "configurations":
+        from ._configs import replay as _r
+        return _r(rec, case)
     from .. import dims
     from ..lib import BIC
     i = case["input"]
@@ -262,6 +306,8 @@ def run(ctx):
     if not ctx.quick:
         from ..engines import fuzz
         fuzz.run_campaign(ctx.rec, "bic-c04", 150000, ctx.seed, ctx.prop)   # secondary engine: coverage-guided, oracle inside
-    ctx.require_classes("insertion-accepted", "insertion-rejected", "ws-extreme", "token-prefix", "argform-userstr", "argform-own-object", "hostile-registry",
+    from ._configs import stage as _config_stage
+    _config_stage(ctx, ['bic'])
+    ctx.require_classes("strict-routes", "strict-routes-strict-rejects", "insertion-accepted", "insertion-rejected", "ws-extreme", "token-prefix", "argform-userstr", "argform-own-object", "hostile-registry",
                         "base-accepted", "replace-ascii", "replace-nonascii", "country-accepted", "country-rejected",
                         "length-trunc", "hyp-near", "hyp-text", "registry-accepted")
